@@ -15,10 +15,12 @@ for d in /verif/seeded/${pat}*-seed*; do
   s=$(basename $d); P=${s%%-*}
   git -C $W/repo checkout -q -- . ; git -C $W/repo clean -qfd
   if ! git -C $W/repo apply $d/patch.diff 2>/dev/null; then echo "$s $P PATCH-DOES-NOT-APPLY"; continue; fi
-  c=$(cd $W/verif && timeout 2400 python3 tools/check.py $P 2>&1 | grep -v "^KNOWN" | tail -40)
+  # the property whose check is expected to catch the change (meta.json "check_with", default: the seed's own property)
+  Q=$(python3 -c "import json;print(json.load(open('$d/meta.json')).get('check_with','$P'))" 2>/dev/null || echo $P)
+  c=$(cd $W/verif && timeout 2400 python3 tools/check.py $Q 2>&1 | grep -v "^KNOWN" | tail -40)
   git -C $W/repo checkout -q -- . ; git -C $W/repo clean -qfd
   if echo "$c" | grep -q "^VIOLATION"; then
-    if echo "$c" | grep "^VIOLATION" | grep -vq "no-failing-input-found"; then echo "$s $P VIOLATION(concrete)"; else echo "$s $P VIOLATION(nfi)"; fi
+    if echo "$c" | grep "^VIOLATION" | grep -vq "no-failing-input-found"; then echo "$s $P VIOLATION(concrete) by $Q"; else echo "$s $P VIOLATION(nfi) by $Q"; fi
   else echo "$s $P MISSED :: $(echo "$c" | tail -1)"; fi
 done
 git -C /verif worktree remove --force $W/verif; git -C /repo worktree remove --force $W/repo; rm -rf $W
